@@ -286,4 +286,26 @@ def sameProgram (j : Json) : Except String Json := do
       pure (Json.mkObj [("verdict", Json.str "same"), ("lines", Json.num (JsonNumber.fromNat la.length)),
                         ("unparsed", Json.num (JsonNumber.fromNat unparsed))])
 
+/-- grammar check of a whole text by the loader model (C09): every line that is not a label definition must be
+    one instruction with an existing opcode and operands of the right number and kind -/
+def wf (j : Json) : Except String Json := do
+  let text ← j.getObjValAs? String "text"
+  let lines := (splitLines text).map tokenize
+  let ctx := buildCtx lines
+  let errs := lines.zipIdx.filterMap (fun (toks, i) =>
+    match labelOf toks with
+    | some _ => none
+    | none => match instrOfLine ctx toks with
+      | .ok ins => (match ins.kind with
+        | .bad why => some (i, why)
+        | _ => none)
+      | .error e => some (i, e))
+  -- duplicate label definitions
+  let names := ctx.labels.map (·.1)
+  let dups := names.filter (fun n => (names.filter (· == n)).length > 1)
+  pure (Json.mkObj [
+    ("errors", Json.arr (errs.map (fun (i, e) => Json.arr #[Json.num (JsonNumber.fromNat i), Json.str e])).toArray),
+    ("duplicate_labels", Json.arr (dups.eraseDups.map Json.str).toArray),
+    ("lines", Json.num (JsonNumber.fromNat lines.length))])
+
 end PV.DriverRun
